@@ -75,7 +75,7 @@ def stage1(ctx):
             if f["kind"] == "behaviour":
                 suspects |= set(f.get("localised_to") or []) or {"RemoveUnusedVariablesPass", "AssignElimination", "SingleUseExpansion", "DFTPass"}
         snaps[r["name"]] = {"entry": e, "snaps": r["snaps"], "inputs": r.get("inputs", []), "ref_runtime": r.get("ref_runtime"),
-                            "live": r.get("live", []), "suspects": suspects}
+                            "live": r.get("live", []), "suspects": suspects, "texts": r.get("texts", {})}
         s = r["stats"]
         for k in ("calls", "compiles", "skip_compiles", "skip_failed", "skip_equal_ref", "invocations", "changed", "wf_checks", "ref_ok_calls"):
             tot[k] += s.get(k, 0)
